@@ -167,7 +167,7 @@ def rand_grammar(rng, nN=None, nT=None, nrules=None, maxlen=3, pnull=0.15, punar
             body = [(["N", rng.randrange(nN)] if rng.random() < 0.5 else ["T", rng.randrange(nT)]) for _ in range(L)]
         w = True if boolean else fs(rng.choice(weights))
         rules.append([w, h, body])
-    if rng.random() < 0.15 and rules:  # duplicate rule
+    if rng.random() < 0.3 and rules:  # duplicate rule
         rules.append(list(rng.choice(rules)))
     if rng.random() < 0.3:  # make sure something terminates
         rules.append([True if boolean else fs(rng.choice(weights)), rng.randrange(nN), [["T", rng.randrange(nT)]]])
